@@ -19,7 +19,8 @@ from .onestep import target_class, op_line, check_outcome, check_post_state
 from . import c06
 
 HOSTILE = ['../outside', '/../outside', 'a/../../outside', '../../..', '/outside', './../outside', '..', 'x/../..',
-           '//outside', '///outside', '/./outside', '//../outside', 'a//../../outside']
+           '//outside', '///outside', '/./outside', '//../outside', 'a//../../outside',
+           '..\\outside', '..\\..\\outside', 'a\\..\\..\\outside', '.\\..\\outside']
 
 
 def run_kernel_case(prog, params):
@@ -175,6 +176,15 @@ def run_confine_case(prog, params):
                         if sr.last.ok and sr.last.value is True:
                             findings.append(make_finding('C07', key_base + '|altroot_dir_materialised',
                                                          'an operation through the altroot created the (missing) altroot directory chain in the underlying filesystem', sr))
+                # (b') removing the altroot's own root has the effect of removing P in the underlying filesystem
+                if not missing and not hostile and v == 'R' and op in ('remove_dir', 'remove_dir_all') and comps:
+                    sr.do('exists uP')
+                    if sr.last.ok and o.ok and sr.last.value is True:
+                        findings.append(make_finding('C07', key_base + '|root_removal_reported_but_P_remains',
+                                                     '%s on the altroot root returned Ok, but P still exists in the underlying filesystem' % op, sr))
+                    if sr.last.ok and not o.ok and sr.last.value is False:
+                        findings.append(make_finding('C07', key_base + '|root_removal_failed_but_P_gone',
+                                                     '%s on the altroot root failed, but P no longer exists in the underlying filesystem' % op, sr))
                 # (b) the altroot view equals the subtree below P
                 if not missing:
                     s_alt = snapshot(sr, u)
